@@ -25,11 +25,12 @@
 EXTENDS ServiceAPIDefs
 
 CONSTANT Impl   \* implementation choices: [reopenOldestWins : BOOLEAN]
-\* the current tree: after the account group is closed and reopened its index reports, for a
-\* contact with several events, the state after the OLDEST one (the index scans the log in
-\* insertion order, which is newest-first after a reload - C04's finding, not C19's business)
-ImplCurrent == [reopenOldestWins |-> TRUE]
-ImplFixed == [reopenOldestWins |-> FALSE]
+\* reopenOldestWins: after the account group is closed and reopened its index reports, for a contact
+\* with several events, the state after the OLDEST one.  That was the behaviour of the tree before the
+\* fix "index the metadata log in deterministic log order" (C04's finding, not C19's business); the
+\* current tree reports the newest state.  TLC checks the model for both values.
+ImplCurrent == [reopenOldestWins |-> FALSE]
+ImplOldIndex == [reopenOldestWins |-> TRUE]
 
 VARIABLES acct, gm, gc, gmj, cs, odd,
           res    \* outcome class of the last request
@@ -94,7 +95,8 @@ Outs(rpc, a) ==
     [] rpc \in ListRPC ->
          IF ~Open(a.k) \/ a.p \in {"bothnow", "idnow", "revopen", "garbid", "unkid"} THEN ERR
          ELSE IF a.p = "knownid" THEN If(a.k = "gm")
-         ELSE IF a.s = "fail" THEN ANY ELSE OK
+         ELSE IF a.s = "fail" \/ a.p \in {"all", "sincenow"} THEN ANY   \* open-ended: ends when the client leaves
+         ELSE OK
     [] rpc = "DebugInspectGroupStore" ->
          IF a.p = "undef" \/ ~Open(a.k) THEN ERR ELSE IF a.s = "fail" THEN ANY ELSE OK
     [] rpc = "DebugListGroups" -> If(acct /\ a.s = "sink")
